@@ -308,6 +308,25 @@ func runC19(r *vk.Run) {
 			}
 			c.Count("array_and_error_detail_cases", 1)
 		}
+		if c.Idx%11 == 6 {
+			// the same text as a plain needle and as an ip() pattern are two different filters (10.0.0.5 is part
+			// of the text 10.0.0.50, but not that address), next to each other in either order
+			v := vk.Pick(rng, []string{"10.0.0.5", "10.0.0.200", "::1", "8.8.8.8", "172.16.5.4"})
+			for i := range ds.Recs {
+				if rng.Chance(1, 3) {
+					ds.Recs[i].Line += vk.Pick(rng, []string{" peer " + v + "0", " peer " + v, " from 1" + v, " ver " + v + ".1"})
+				}
+			}
+			base, err = c19Eval(c, ds, n, qt)
+			op := vk.Pick(rng, []string{"|=", "!="})
+			neg := map[string]string{"|=": "!=", "!=": "|="}[op]
+			f = filt{Text: op + " " + quoteLogQL(v), Neg: neg + " " + quoteLogQL(v), Kind: "line-contains"}
+			g = filt{Text: op + " ip(" + quoteLogQL(v) + ")", Kind: "line-ip"}
+			if rng.Bool() {
+				f, g = g, f
+			}
+			c.Count("needle_and_ip_pattern_of_one_text", 1)
+		}
 		det := func(extra map[string]any) map[string]any {
 			m := map[string]any{"q": qt, "f": f, "g": g, "records": ds.Recs}
 			for k, v := range extra {
